@@ -721,6 +721,17 @@ func TestVerifKeys(t *testing.T) {
 		want, st := vkRef(node, path, 0)
 		res := vkCall(loc, msg)
 		desc := []string{"message: " + vkDescribe(node, 0), "locator: " + fmt.Sprintf("%q", loc)}
+		if !res.panicked && idx%3 == 0 {
+			// the same call once more (gRPC repeats a pick with the same request object)
+			again := vkCall(loc, msg)
+			out.hit("C11.repeated-call")
+			if again.panicked {
+				res = again
+			} else if (again.err == nil) != (res.err == nil) || !vkEqual(again.keys, res.keys) {
+				report(idx, "C11.keys", "repeat", fmt.Sprintf("the same extraction repeated gives a different answer: first keys=%q err=%v, then keys=%q err=%v", res.keys, res.err, again.keys, again.err), desc)
+				continue
+			}
+		}
 		out.hit("C11.total")
 		if res.panicked {
 			report(idx, "C11.panic", vPanicKind(res.pval)+"@"+vPanicSite(res.pstack, "grpcgcp."), fmt.Sprintf("getAffinityKeysFromMessage panicked: %v", res.pval), desc)
@@ -844,6 +855,25 @@ func vkProtoCase(rng *vRand, out *vOut, idx int64, report func(int64, string, st
 			}
 		} else if res.err != nil || !vkEqual(res.keys, e.keys) {
 			report(idx, "C11.keys", "proto", fmt.Sprintf("got keys=%q err=%v, want %q", res.keys, res.err, e.keys), desc)
+		}
+	}
+	// the same message object again after the application changed it: the result
+	// must describe the message as it is now
+	if c2, ok := msg.(*pb.ApiConfig); ok && c2 != nil && !nameErr && len(names) > 0 {
+		first := vkCall("method.name", msg)
+		for _, m := range c2.Method {
+			for i := range m.Name {
+				m.Name[i] += "/changed"
+			}
+		}
+		want := []string{}
+		for _, m := range c2.Method {
+			want = append(want, m.Name...)
+		}
+		res := vkCall("method.name", msg)
+		out.hit("C11.same-object-after-change")
+		if !first.panicked && !res.panicked && (res.err != nil || !vkEqual(res.keys, want)) {
+			report(idx, "C11.keys", "stale", fmt.Sprintf("the message object was changed between two extractions with the same locator: got keys=%q err=%v, the message now holds %q", res.keys, res.err, want), []string{"message: pb.ApiConfig (names changed in place)", "locator: method.name"})
 		}
 	}
 	out.nontrivial(vHashStrings([]string{fmt.Sprint(cfg)}))
